@@ -56,6 +56,7 @@ type recEvent struct {
 	fn    string
 	vals  []uint64
 	chain []string
+	lidx  int // which compilation's listener received the event
 	extra int // length of the slice handed to the listener minus the number of parameters (results)
 }
 
@@ -67,6 +68,9 @@ type runner struct {
 	engine            string
 	listen            bool
 	subset            map[string]bool // nil = all functions
+	// perInstCompile: every instance is a separate CompileModule call with its own factory, all
+	// functions listened: the events of instance i must reach the listeners instance i's factory made
+	perInstCompile bool
 	// instSubset, when set, gives each instance (= each compilation) its own selection
 	instSubset []map[string]bool
 	w          *plan.World
@@ -284,13 +288,16 @@ func (f lfactory) NewFunctionListener(def api.FunctionDefinition) experimental.F
 	if !f.r.listensIdx(f.idx, def.DebugName()) {
 		return nil
 	}
-	return &lst{r: f.r}
+	return &lst{r: f.r, idx: f.idx}
 }
 
-type lst struct{ r *runner }
+type lst struct {
+	r   *runner
+	idx int // the compilation (instance index) whose factory created this listener; -1 host module or shared compilation
+}
 
 func (l *lst) Before(ctx context.Context, mod api.Module, def api.FunctionDefinition, params []uint64, si experimental.StackIterator) {
-	e := recEvent{kind: "before", fn: def.DebugName(), extra: len(params) - len(def.ParamTypes())}
+	e := recEvent{kind: "before", fn: def.DebugName(), extra: len(params) - len(def.ParamTypes()), lidx: l.idx}
 	for i, pt := range def.ParamTypes() {
 		if i < len(params) {
 			e.vals = append(e.vals, decodeVal(pt, params[i]))
@@ -307,7 +314,7 @@ func (l *lst) Before(ctx context.Context, mod api.Module, def api.FunctionDefini
 	l.r.events = append(l.r.events, e)
 }
 func (l *lst) After(ctx context.Context, mod api.Module, def api.FunctionDefinition, results []uint64) {
-	e := recEvent{kind: "after", fn: def.DebugName(), extra: len(results) - len(def.ResultTypes())}
+	e := recEvent{kind: "after", fn: def.DebugName(), extra: len(results) - len(def.ResultTypes()), lidx: l.idx}
 	for i, rt := range def.ResultTypes() {
 		if i < len(results) {
 			e.vals = append(e.vals, decodeVal(rt, results[i]))
@@ -316,7 +323,7 @@ func (l *lst) After(ctx context.Context, mod api.Module, def api.FunctionDefinit
 	l.r.events = append(l.r.events, e)
 }
 func (l *lst) Abort(ctx context.Context, mod api.Module, def api.FunctionDefinition, err error) {
-	l.r.events = append(l.r.events, recEvent{kind: "abort", fn: def.DebugName()})
+	l.r.events = append(l.r.events, recEvent{kind: "abort", fn: def.DebugName(), lidx: l.idx})
 }
 
 // decodeVal: 32-bit types are carried in the low half of the uint64 slot.
@@ -392,8 +399,9 @@ func (r *runner) setup(plans []*plan.Plan, names []string, imports []int) {
 	for i, p := range plans {
 		cm := compiled[p]
 		ictx := cctx
-		if r.listen && r.instSubset != nil {
-			// one compilation per instance, each with its own listener selection
+		if r.listen && (r.instSubset != nil || r.perInstCompile) {
+			// one compilation per instance, each with its own listener selection (or the SAME selection but
+			// its own listener objects: perInstCompile)
 			cm = nil
 			ictx = experimental.WithFunctionListenerFactory(r.ctx, lfactory{r, i})
 		}
@@ -548,6 +556,27 @@ func (r *runner) compareEvents(what string, deep int, deepChain bool) (known []s
 		if ge.kind != we.Kind || ge.fn != we.Func {
 			r.res.Fail("listener-sequence", "%s: event %d is %s %s, model predicts %s", what, wi, ge.kind, ge.fn, we)
 			return
+		}
+		if r.perInstCompile && we.Inst != nil {
+			want := -1
+			first := -1
+			for i, in := range r.insts {
+				if in == we.Inst {
+					want = i
+				}
+				if first < 0 && in.P == we.Inst.P {
+					first = i
+				}
+			}
+			if ge.lidx != want {
+				if ge.lidx == first {
+					// recorded known finding: the engine keeps the listeners of the FIRST compilation of a binary
+					known = append(known, "listeners-of-first-compilation-serve-later-compilations")
+				} else {
+					r.res.Fail("listener-misrouted", "%s: event %d %s %s of instance %d reached the listener made by the factory of compilation %d", what, wi, ge.kind, ge.fn, want, ge.lidx)
+					return
+				}
+			}
 		}
 		if we.Kind != "abort" && ge.extra != 0 {
 			r.res.Fail("listener-values", "%s: event %d %s %s: the slice handed to the listener has %d values, the function has %d (%v)", what, wi, ge.kind, ge.fn, len(we.Vals)+ge.extra, len(we.Vals), we.Vals)
